@@ -279,6 +279,12 @@ def build_harness(ctx, variant="plain"):
     lock_src = os.path.join(REPO, "Cargo.lock")
     cmd = ["cargo", "build", "--release", "--offline"]
     rc, out, err = sh(cmd, cwd=HARNESS, timeout=3000)
+    for _ in range(3):
+        if rc == 0:
+            break
+        # somebody may be saving a harness source file right now (helpers work in the same tree): try again before giving up
+        time.sleep(40)
+        rc, out, err = sh(cmd, cwd=HARNESS, timeout=3000)
     ok = rc == 0
     if not ok:
         ctx.log("[harness] build failed:\n" + err[-3000:])
